@@ -1,6 +1,8 @@
 package main
 
 import (
+	"strconv"
+	"regexp"
 	"bytes"
 	"fmt"
 	"go/ast"
@@ -63,6 +65,11 @@ type Contract struct {
 	Witness      []string
 	ReadOnlyHeap bool
 	UseLemmas    []Clause // use-lemma name(args): instantiated at the normal exit before the ensures are checked
+	CasesExpr    string   // cases <expr> in lo..hi: the function is verified once per value (a proof-search tactic; coverage is an obligation)
+	CasesLo      int
+	CasesHi      int
+	caseCover    *Clause // set on the first case run: lo <= expr <= hi follows from the requires
+	caseNote     string
 	WitnessFrom  map[string]string // witness name -> callee contract that supplies it
 	FreshResult  bool
 	decl         *ast.FuncDecl
@@ -328,7 +335,7 @@ func (e *Engine) scanGlobals() {
 var clauseKeywords = map[string]bool{"func": true, "theorem": true, "global": true, "props": true, "requires": true,
 	"ensures": true, "panics": true, "modifies": true, "decreases": true, "yields": true, "loop": true, "invariant": true,
 	"let": true, "split": true, "mode": true, "established-by": true, "thin": true, "trusted": true, "assert": true,
-	"ensures-notrace": true, "modifies-heap": true, "witness": true, "callback": true, "readonly-heap": true, "fresh-result": true, "pure": true, "splitvar": true, "snapshot": true, "snapshot-after": true, "use-lemma": true}
+	"ensures-notrace": true, "modifies-heap": true, "witness": true, "callback": true, "readonly-heap": true, "fresh-result": true, "pure": true, "splitvar": true, "snapshot": true, "snapshot-after": true, "use-lemma": true, "cases": true}
 
 type rawClause struct {
 	kw   string
@@ -487,6 +494,14 @@ func (e *Engine) loadContracts() error {
 						cur.ReadOnlyHeap = true
 					case "callback":
 						cur.Modifies["callback:"+strings.TrimSpace(rc.text)] = true
+					case "cases":
+						m := regexp.MustCompile(`^(.+?)\s+in\s+(-?\d+)\.\.(-?\d+)$`).FindStringSubmatch(strings.TrimSpace(rc.text))
+						if m == nil {
+							return perr(fmt.Errorf("cases needs `<expr> in lo..hi`"))
+						}
+						cur.CasesExpr = m[1]
+						cur.CasesLo, _ = strconv.Atoi(m[2])
+						cur.CasesHi, _ = strconv.Atoi(m[3])
 					case "use-lemma":
 						ex, err := parseSpec(rc.text)
 						if err != nil {
